@@ -216,7 +216,9 @@ func newSession(sc *hScenario, oracles ...string) *session {
 		if dir == "" {
 			dir = os.TempDir()
 		}
-		s.fpath = filepath.Join(dir, fmt.Sprintf("hist-%d-%d.json", os.Getpid(), tick()))
+		// (process ids come round again: a child that died on its torn file leaves the file behind)
+		s.fpath = filepath.Join(dir, fmt.Sprintf("hist-%d-%d-%d.json", os.Getpid(), tick(), time.Now().UnixNano()))
+		_ = os.Remove(s.fpath)
 		s.cfg.Metadata.Type = "file"
 		s.cfg.Metadata.Config = map[string]string{"fileName": s.fpath}
 		s.metaI = metadata.NewFSMetadata(s.cfg)
